@@ -114,6 +114,7 @@ class Summarizer:
         self.in_try = 0
         self.try_normal = False
         self.dyn_ir = set()      # IR locals holding a method chosen dynamically by getattr
+        self.seeded_ir = set()   # IR locals holding a kwargs dict that received a derived `random_state`
         self.helper_seen = set()
         self.known_attrs = {"n_features_in_"}
         for c in self.ix.mro(cls):
@@ -484,8 +485,12 @@ class Summarizer:
             for n, x in zip(fr.ret_tuple, val.elts):
                 if isinstance(x, ast.Name) and x.id in fr.dynfuncs:
                     self.dyn_ir.add(n)
+                if isinstance(x, ast.Name) and fr.names.get(x.id) in self.seeded_ir:
+                    self.seeded_ir.add(n)
         elif isinstance(val, ast.Name) and val.id in fr.dynfuncs:
             self.dyn_ir.add(fr.ret)
+        elif isinstance(val, ast.Name) and fr.names.get(val.id) in self.seeded_ir:
+            self.seeded_ir.add(fr.ret)
         if v[0] == "tuple" and fr.ret_tuple is not None and len(v[1]) == len(fr.ret_tuple):
             for n, e in zip(fr.ret_tuple, v[1]):
                 self.emit(("bind", n, self.to_rhs(fr, e, node), self.meta(fr, node)))
@@ -561,6 +566,12 @@ class Summarizer:
             fr.dynfuncs.discard(target.id)
             if v[0] == "p" and v[1][0] == "loc" and v[1][1] in self.dyn_ir:
                 fr.dynfuncs.add(target.id)
+            if v[0] == "p" and v[1][0] == "loc" and v[1][1] in self.seeded_ir:
+                self.seeded_ir.add(name)
+            if isinstance(value_node, ast.Call) and isinstance(value_node.func, ast.Name) and value_node.func.id == "dict":
+                for k in value_node.keywords:
+                    if k.arg in ("random_state", "seed") and self.rng_kind(fr, k.value) in ("own", "derived", "seededArg"):
+                        self.seeded_ir.add(name)
             if isinstance(value_node, ast.Call):
                 vf = value_node.func
                 if isinstance(vf, ast.Name) and vf.id == "getattr" and len(value_node.args) >= 2 and not isinstance(value_node.args[1], ast.Constant):
@@ -595,6 +606,9 @@ class Summarizer:
             base = self.to_path(fr, basev, node)
             stored = [] if self.is_numeric(fr, target.value) else self.paths_of(v)
             self.emit(("mutate", base, stored, self.meta(fr, node)))
+            if (isinstance(target.slice, ast.Constant) and target.slice.value in ("random_state", "seed") and isinstance(target.value, ast.Name)
+                    and value_node is not None and self.rng_kind(fr, value_node) in ("own", "derived", "seededArg")):
+                self.seeded_ir.add(fr.ir(target.value.id))
         elif isinstance(target, (ast.Tuple, ast.List)):
             if v[0] == "tuple" and len(v[1]) == len(target.elts) and not any(isinstance(e, ast.Starred) for e in target.elts):
                 for t, e in zip(target.elts, v[1]):
@@ -1371,6 +1385,11 @@ class Summarizer:
                     k = "global"
             self.rng_sites.append((k, m))
             return
+        # **kwargs dict that was given a `random_state` derived from the object's own generator
+        if any(k.arg is None and isinstance(k.value, ast.Name) and fr.names.get(k.value.id) in self.seeded_ir for k in call.keywords):
+            if (isinstance(f, ast.Name) and f.id in fr.dynfuncs) or (isinstance(f, ast.Attribute) and self.is_self(fr, f.value) and self.is_param(f.attr)) or isinstance(f, ast.Name):
+                self.rng_sites.append(("derived", dict(m, text=m["text"] + "  [random_state put into the kwargs from the own generator]")))
+                return
         # dynamic method obtained by getattr(obj, <name from a parameter>) called without random_state
         if isinstance(f, ast.Name) and f.id in fr.dynfuncs and any(k.arg is None for k in call.keywords):
             self.rng_sites.append(("unseeded", dict(m, text=m["text"] + "  [dynamically chosen method, random_state not forwarded]")))
